@@ -263,6 +263,7 @@ class Run:
         self.dest = {w: os.path.join(self.ddir, f'dest_{w}.bin') for w in writers}
         self.old = {}
         self.new = {}
+        self.new2: dict = {}        # complete contents of a writer's second round (re-used writer object)
         self.cv = threading.Condition()
         self.active = None
         self.pending: dict = {}
@@ -313,11 +314,13 @@ class Run:
                 continue
             size = os.stat(self.dest[w]).st_size
             cls = 'bad'
-            if size in (len(self.old[w]), len(self.new[w])):
+            if size in (len(self.old[w]), len(self.new[w]), len(self.new2.get(w, b''))):
                 with _REAL['open'](self.dest[w], 'rb') as f:
                     data = f.read()
                 if data == self.new[w]:
                     cls = 'new'
+                elif w in self.new2 and data == self.new2[w]:
+                    cls = 'new2'
                 elif data == self.old[w] and self.init['orig'][w] == 'old':
                     cls = 'old'
             d[w] = cls
@@ -410,16 +413,27 @@ class Run:
             self.cv.notify_all()
 
     # -- the writers
+    def end_round(self, w, res: str, more: bool) -> None:
+        """Control is back at the caller; with more = True the same writer object is entered again."""
+        self.boundary(w, 'end')
+        self.log(w, 'end', res)
+        if more:
+            self.boundary(w, 'reenter')
+            self.log(w, 'reenter', 'ok')
+
     def _writer(self, w) -> None:
         _tls.w = w
-        res = 'ok'
         try:
-            self.bodies[w](self, w)
-        except BaseException:       # noqa: BLE001 - whatever leaves the with statement
-            res = 'raised'
-        try:
-            self.boundary(w, 'end')
-            self.log(w, 'end', res)
+            body = self.bodies[w]
+            if getattr(body, 'rounds', False):
+                body(self, w)           # logs the end of each of its rounds itself
+            else:
+                res = 'ok'
+                try:
+                    body(self, w)
+                except BaseException:       # noqa: BLE001 - whatever leaves the with statement
+                    res = 'raised'
+                self.end_round(w, res, False)
         finally:
             _tls.w = None
             self.finish(w)
@@ -497,9 +511,22 @@ def chunk_text(w: str, j: int, n: int) -> str:
     return s
 
 
+def rounds_of_path(path: list, w: str) -> list:
+    """The events of writer w, one list per round (a 'reenter' event starts the next round)."""
+    rounds: list = [[]]
+    for e in path:
+        if e['w'] != w:
+            continue
+        if e['op'] == 'reenter':
+            rounds.append([])
+        else:
+            rounds[-1].append(e)
+    return rounds
+
+
 def script_from_path(path: list, w: str) -> tuple[list, bool]:
-    """The body the caller runs, read off the schedule: one write per bcall, a flush where the
-    schedule has raw writes inside the body, a raise at bodyerr.  Returns (steps, complete)."""
+    """The body the caller runs in one round, read off the schedule: one write per bcall, a flush
+    where the schedule has raw writes inside the body, a raise at bodyerr.  Returns (steps, complete)."""
     steps: list = []
     in_body = False
     complete = False
@@ -528,9 +555,9 @@ def script_from_path(path: list, w: str) -> tuple[list, bool]:
     return steps, complete
 
 
-def new_of_script(w: str, steps: list, complete: bool, text: bool):
+def new_of_script(w: str, steps: list, complete: bool, text: bool, j0: int = 0):
     parts = []
-    j = 0
+    j = j0
     for st in steps:
         if st[0] == 'w':
             parts.append(chunk_text(w, j, st[1] * UNIT) if text else chunk_bytes(w, j, st[1] * UNIT))
@@ -544,10 +571,10 @@ def new_of_script(w: str, steps: list, complete: bool, text: bool):
     return data
 
 
-def aw_body(steps: list, text: bool, unit: int = UNIT):
-    def body(run: Run, w: str) -> None:
-        aw = AtomicWriter(run.dest[w], is_bytes=not text)
-        j = 0
+def aw_body(steps, text: bool, unit: int = UNIT, rounds: bool = False):
+    """steps: the body of one use of the writer; with rounds = True a list of bodies, run one after
+    the other through the SAME AtomicWriter object (round k numbers its chunks from 100 * k)."""
+    def one(aw, w: str, steps: list, j: int) -> None:
         with aw as f:
             for st in steps:
                 if st[0] == 'w':
@@ -557,6 +584,20 @@ def aw_body(steps: list, text: bool, unit: int = UNIT):
                     f.flush()
                 elif st[0] == 'err':
                     raise BodyErr('the body raises')
+
+    def body(run: Run, w: str) -> None:
+        aw = AtomicWriter(run.dest[w], is_bytes=not text)
+        if not rounds:
+            one(aw, w, steps, 0)
+            return
+        for k, st in enumerate(steps):
+            res = 'ok'
+            try:
+                one(aw, w, st, 100 * k)
+            except BaseException:       # noqa: BLE001 - whatever leaves the with statement
+                res = 'raised'
+            run.end_round(w, res, k + 1 < len(steps))
+    body.rounds = rounds
     return body
 
 
@@ -665,15 +706,18 @@ def run_path(base: str, p: dict, kind: str, t: int) -> dict:
     text = kind == 'aw-text'
     rdir = tempfile.mkdtemp(prefix='r', dir=base)
     run = Run(rdir, init, writers, kind, path=path)
+    reuse = any(e['op'] == 'reenter' for e in path)
     for w in writers:
-        steps, complete = script_from_path(path, w)
-        run.bodies[w] = aw_body(steps, text)
+        scripts = [script_from_path(evs, w) for evs in rounds_of_path(path, w)]
+        run.bodies[w] = aw_body([sc[0] for sc in scripts], text, rounds=True)
         run.old[w] = b'previous contents of ' + w.encode() + b'\n' * 50
-        run.new[w] = new_of_script(w, steps, complete, text)
+        run.new[w] = new_of_script(w, scripts[0][0], scripts[0][1], text)
+        if len(scripts) > 1:
+            run.new2[w] = new_of_script(w, scripts[1][0], scripts[1][1], text, 100)
     crash = any(e['op'] == 'crash' for e in path)
     evs = run.run(fork=crash)
     shutil.rmtree(rdir, ignore_errors=True)
-    sig = {'kind': kind, 'action': 'path%d' % len(writers)}
+    sig = {'kind': kind, 'action': 'path%d%s' % (len(writers), 'r' if reuse else '')}
     sig.update(abnormal_of(path))
     return {'t': t, 'sig': sig, 'init': init, 'unit': UNIT, 'plan': path, 'ev': evs,
             'how': {'mode': 'path', 'kind': kind, 'path': p}}
